@@ -1,7 +1,7 @@
 """The shipped vocabulary read as *specification*: language modules of the tree under test, with the
 regional overlay applied by the harness's own merge (lists appended, dicts merged, scalars replaced)."""
-import importlib
 import os
+import runpy
 import unicodedata
 
 from .target import REPO, ensure
@@ -30,9 +30,11 @@ def language_order():
 
 
 def raw_info(lang):
+    """The `info` mapping of a language module, executed privately from the file: the specification must not share objects
+    with the module the library imports (a library that edits its data in place would otherwise edit the specification too)."""
     if lang not in _cache:
-        mod = importlib.import_module("dateparser.data.date_translation_data." + lang)
-        _cache[lang] = mod.info
+        path = os.path.join(REPO, "dateparser", "data", "date_translation_data", lang + ".py")
+        _cache[lang] = runpy.run_path(path)["info"]
     return _cache[lang]
 
 
